@@ -25,10 +25,10 @@ def harnesses(tier):
             unwind=max(BIG, M + 6 * A + 2) + 3, timeout=900 if tier == 'quick' else 3000, mem_gb=4,
             bounds='content<=%d bytes, arguments<=%d bytes, capacity 1..%d, positions/lengths full 64-bit' % (M, A, CAP),
             desc='d_string_%s from an arbitrary valid DString vs ideal string' % op))
-    RM = 3 if tier == 'quick' else 5
+    RM = 3 if tier == 'quick' else 4      # 5: beyond 7 GB (measured)
     hs.append(dict(name='c19_replace', src='c19/replace.c', defs=dict(M=RM, A=2),
                    units=[dict(src='repo:d_string.c', remove=['d_string_erase', 'd_string_insert'], cflags=['-include', 'vh_libc.h'])],
-                   unwind=RM * 2 + RM + 6, timeout=900 if tier == 'quick' else 3000, mem_gb=6,
+                   unwind=RM * 2 + RM + 6, timeout=900 if tier == 'quick' else 4000, mem_gb=6 if tier == 'quick' else 20,
                    bounds='content<=%d bytes, pattern 1..2 bytes, replacement 0..2 bytes, pos/len full 64-bit' % RM,
                    desc='d_string_replace_text_in_range loop bookkeeping vs ideal string (erase/insert = their ideal versions)'))
     hs.append(dict(name='c19_new_boundary', src='c19/newsize.c', unwind=8, timeout=600, mem_gb=6, functional=True, replay=False,
